@@ -1,7 +1,7 @@
 #!/venv/bin/python
 """Writes seeded/RESULTS.md and the detected_by fields of seeded/<id>/meta.json from build/seed_eval/<id>.txt."""
 import json, os, re, pathlib
-root = pathlib.Path("/verif")
+root = pathlib.Path(__file__).resolve().parent.parent
 rows = []
 for d in sorted(os.listdir(root / "seeded")):
     if not re.match(r"C\d\d-\d+$", d):
